@@ -28,6 +28,7 @@ REQUIRED = {
     "mon:eq.agrees": 100,
     "mon:snapshot.unaffected": 20,
     "mon:roundtrip.text": 50,
+    "mon:decode.independent-of-other-contents": 500,
 }
 ASSUMPTIONS = [
     "whole-string bytes.decode(charset) of the Python standard library is the reference for as_text()",
@@ -89,12 +90,58 @@ def x_decode(ctx, case):
     return len(parts) > 1 or len(data) > 0
 
 
+def x_interleave(ctx, case):
+    """Several text contents decoded at the same time / abandoned half way do not disturb each other."""
+    from testtools.content import Content
+    contents, wants = [], []
+    for d in case["contents"]:
+        data = bytes.fromhex(d["hex"])
+        parts = _split(data, d["cuts"], [])
+        contents.append(Content(_ct(d["charset"]), lambda p=parts: list(p)))
+        wants.append(data.decode(d["charset"] or "ISO-8859-1"))
+    its = [c.iter_text() for c in contents]
+    outs = [[] for _ in contents]
+    live = list(range(len(its)))
+    abandon = set(case.get("abandon", []))
+    steps = 0
+    err = None
+    try:
+        while live:
+            for i in list(live):
+                if i in abandon and outs[i]:
+                    live.remove(i)  # abandoned after its first piece
+                    continue
+                try:
+                    outs[i].append(next(its[i]))
+                except StopIteration:
+                    live.remove(i)
+            steps += 1
+        # after the abandoned ones, decode every content once more from scratch
+        again = [c.as_text() for c in contents]
+    except Exception as e:  # noqa
+        err = e
+        again = None
+    for i, w in enumerate(wants):
+        if i not in abandon:
+            ctx.check(err is None and "".join(outs[i]) == w, "decode.independent-of-other-contents",
+                      lambda: {"i": i, "got": outs[i], "want": w, "error": repr(err), "case": case})
+    ctx.check(again == wants, "decode.independent-of-other-contents",
+              lambda: {"again": again, "want": wants, "error": repr(err), "case": case})
+    return True
+
+
 def x_roundtrip(ctx, case):
     from testtools.content import text_content, json_content
     if case["kind"] == "text":
         t = case["text"]
         c = text_content(t)
-        ctx.check(c.as_text() == t, "roundtrip.text", lambda: {"got": c.as_text()})
+        try:
+            got = c.as_text()
+        except Exception as e:  # noqa
+            got = "as_text() raised %r" % (e,)
+        ctx.check(got == t, "roundtrip.text", lambda: {"got": got})
+        if got != t:
+            return True
         ctx.check(b"".join(c.iter_bytes()) == t.encode("utf8"), "roundtrip.text-bytes")
         ctx.check("".join(c.iter_text()) == t, "roundtrip.iter_text")
         # evaluating twice yields the same
@@ -111,12 +158,18 @@ def x_roundtrip(ctx, case):
 
 
 class SpyStream(io.BytesIO):
-    def __init__(self, data):
+    """Instrumented stream; ``short`` makes read(n) return fewer than n bytes before EOF, as raw
+    streams (pipes, sockets, io.RawIOBase) legitimately do."""
+
+    def __init__(self, data, short=None):
         super().__init__(data)
         self.ops = []
+        self.short = list(short or [])
 
     def read(self, n=-1):
         self.ops.append(("read", n))
+        if self.short and n and n > 1:
+            n = max(1, min(n, self.short.pop(0)))
         return super().read(n)
 
     def seek(self, off, whence=0):
@@ -141,7 +194,7 @@ def x_stream(ctx, case):
     ct = ContentType("application", "octet-stream")
     kw = {} if off is None else {"seek_offset": off, "seek_whence": wh}
     # -- stream
-    s = SpyStream(data)
+    s = SpyStream(data, case.get("short"))
     c = content_from_stream(s, ct, cs, buffer_now=bn, **kw)
     ops_at_construction = list(s.ops)
     if bn:
@@ -247,8 +300,10 @@ def x_snapshot(ctx, case):
     source = {}
     for name, hexes in case["source"].items():
         cells[name] = [bytes.fromhex(h) for h in hexes]
+        # the callback hands out its own live list, which the test later changes in place
         source[name] = Content(ContentType("application", "octet-stream", {"n": name}),
-                               lambda n=name: list(cells[n]))
+                               (lambda n=name: cells[n]) if case.get("live", True) else
+                               (lambda n=name: list(cells[n])))
     target = {}
     pre = {}
     for name in case["target"]:
@@ -290,6 +345,7 @@ SUBCHECKS = {
     "eq": x_eq,
     "ctype": x_ctype,
     "snapshot": x_snapshot,
+    "interleave": x_interleave,
 }
 
 _PARAM_ALPHABET = list(string.ascii_letters + string.digits + " ;=,/()<>@:[]?*'%!#$&+-.^_`|~{}") + [
@@ -376,6 +432,19 @@ def run(ctx):
         cuts = sorted({rng.randint(0, len(b)) for _ in range(rng.randint(0, 6))})
         empties = [rng.randint(0, 6) for _ in range(rng.randint(0, 2))]
         ctx.execute("decode", {"charset": charset, "hex": b.hex(), "cuts": cuts, "empties": empties})
+    # ---- several contents decoded concurrently / abandoned ----------------------------------
+    for i in range(ctx.scale(3000, 100000)):
+        if ctx.out_of_time():
+            break
+        charset = rng.choice(["utf8", "utf-16", "gb18030", "utf-16-le"])
+        cs = []
+        for _ in range(rng.randint(2, 3)):
+            t = "".join(rng.choice(["\xe9", "☃", "\U0001f600", "a", "€"]) for _ in range(rng.randint(1, 5)))
+            b = t.encode(charset)
+            cs.append({"charset": charset, "hex": b.hex(),
+                       "cuts": sorted({rng.randint(1, max(1, len(b) - 1)) for _ in range(rng.randint(1, 4))})})
+        ctx.execute("interleave", {"contents": cs,
+                                   "abandon": [0] if rng.random() < 0.4 else []})
     # ---- roundtrip ----------------------------------------------------------
     for t in short_texts + ['"\\\n', "\r\n", "\x00"]:
         if ctx.mine():
@@ -418,8 +487,11 @@ def run(ctx):
         off = rng.choice([None, rng.randint(0, L + 5), -rng.randint(0, L)])
         wh = 0 if off is None or off >= 0 and rng.random() < 0.7 else 2
         cs = rng.choice([1, 2, 3, 5, 8, 16, 64, 4096])
-        ctx.execute("stream", {"hex": data.hex(), "chunk": cs, "offset": off, "whence": wh,
-                               "buffer_now": rng.random() < 0.5})
+        case = {"hex": data.hex(), "chunk": cs, "offset": off, "whence": wh,
+                "buffer_now": rng.random() < 0.5}
+        if rng.random() < 0.4:
+            case["short"] = [rng.randint(1, max(1, cs)) for _ in range(rng.randint(1, 6))]
+        ctx.execute("stream", case)
     # ---- eq -------------------------------------------------------------------
     def rand_content_desc(base=None):
         if base is not None and rng.random() < 0.6:
@@ -464,4 +536,4 @@ def run(ctx):
                    for _ in range(rng.randint(0, 3))]
                for n in rng.sample(names, rng.randint(1, 4))}
         tgt = rng.sample(names, rng.randint(0, 4))
-        ctx.execute("snapshot", {"source": src, "target": tgt})
+        ctx.execute("snapshot", {"source": src, "target": tgt, "live": rng.random() < 0.7})
